@@ -207,6 +207,10 @@ func (cc *c33CC) NewSubConn(_ []resolver.Address, opts balancer.NewSubConnOption
 	w := cc.w
 	sc := &c33SC{w: w, id: len(w.scs), owner: w.caller, listener: opts.StateListener}
 	w.scs = append(w.scs, sc)
+	if f := w.nested; f != nil {
+		w.nested = nil // the subchannel exists, the call has not returned yet
+		f()
+	}
 	return sc, nil
 }
 func (cc *c33CC) RemoveSubConn(sc balancer.SubConn)                        { sc.Shutdown() }
@@ -334,6 +338,7 @@ type c33World struct {
 	allFwd   int
 
 	caller        int
+	nested        func() // event to run inside the channel's NewSubConn (re-entrant histories)
 	childShutting bool
 	expectBuild   int
 	resolveNow    int
@@ -610,6 +615,60 @@ func (w *c33World) doSwitch(b c33Builder, viaConfig bool, cfg *lbConfig) {
 	}
 }
 
+// c33Nested is an event that happens while a NewSubConn call is in flight.
+type c33Nested struct {
+	label   string
+	prepare func(w *c33World) func() // nil result = not applicable
+}
+
+// c33NewSCOp: the policy in the given role calls NewSubConn; with nested != nil
+// the nested event runs inside the channel's NewSubConn before it returns.
+func c33NewSCOp(role, label string, nested *c33Nested) c33Op {
+	name := role + ".NewSubConn"
+	if nested != nil {
+		name += "{during the call: " + label + "}"
+	}
+	return c33Op{name, func(w *c33World) bool {
+		i := w.roleIdx(role)
+		if i < 0 || i >= len(w.children) {
+			return false
+		}
+		c := w.children[i]
+		if len(c.scs) >= w.maxSC {
+			return false
+		}
+		w.m.effect = role + "-newsubconn"
+		if nested != nil {
+			f := nested.prepare(w)
+			if f == nil {
+				return false
+			}
+			w.nested = func() {
+				prefix := role + "-newsubconn-during-" + label
+				w.m.effect = ""
+				f()
+				w.m.effect = prefix + ":" + w.m.effect
+				if w.m.ch[i].closed {
+					w.m.effect += "+caller-closed-during-call"
+				}
+			}
+		}
+		before := len(w.scs)
+		c.newSubConn()
+		w.nested = nil // (if the call never reached the channel the nested event simply did not happen)
+		if w.m.ch[i].closed || w.m.closed {
+			// a closed policy must not be left with a live subchannel, also when
+			// it was closed while the call was in flight
+			for _, sc := range w.scs[before:] {
+				if sc.owner == i && sc.shutdowns == 0 {
+					w.fail("closed-policy-created-live-subchannel", "closed policy %d called NewSubConn (closed before or during the call) and subchannel %d was created on the channel and not shut down", i, sc.id)
+				}
+			}
+		}
+		return true
+	}}
+}
+
 func c33Ops(cfgA, cfgB *lbConfig) []c33Op {
 	ops := []c33Op{
 		{"switchTo(A)", func(w *c33World) bool { w.doSwitch(c33BuilderA, false, nil); return true }},
@@ -662,28 +721,7 @@ func c33Ops(cfgA, cfgB *lbConfig) []c33Op {
 				return true
 			}})
 		}
-		ops = append(ops, c33Op{role + ".NewSubConn", func(w *c33World) bool {
-			i := w.roleIdx(role)
-			if i < 0 || i >= len(w.children) {
-				return false
-			}
-			c := w.children[i]
-			if len(c.scs) >= w.maxSC {
-				return false
-			}
-			w.m.effect = role + "-newsubconn"
-			before := len(w.scs)
-			c.newSubConn()
-			if w.m.ch[i].closed || w.m.closed {
-				// a closed policy must not be left with a live subchannel
-				for _, sc := range w.scs[before:] {
-					if sc.shutdowns == 0 {
-						w.fail("closed-policy-created-live-subchannel", "closed policy %d called NewSubConn and subchannel %d was created on the channel and not shut down", i, sc.id)
-					}
-				}
-			}
-			return true
-		}})
+		ops = append(ops, c33NewSCOp(role, "", nil))
 		ops = append(ops, c33Op{role + ".subConnState(READY)", func(w *c33World) bool {
 			i := w.roleIdx(role)
 			if i < 0 || i >= len(w.children) {
@@ -733,6 +771,36 @@ func c33Ops(cfgA, cfgB *lbConfig) []c33Op {
 			return false
 		}})
 	}
+	// Re-entrant histories: while the policy's NewSubConn call is in flight inside
+	// the channel (the fake channel has created the subchannel but not returned
+	// yet), one more event happens - the calling policy may be closed or
+	// superseded DURING the call.
+	report := func(target string, s connectivity.State) c33Nested {
+		return c33Nested{target + ".UpdateState(" + c33St(s) + ")", func(w *c33World) func() {
+			j := w.roleIdx(target)
+			if j < 0 || j >= len(w.children) {
+				return nil
+			}
+			return func() { w.children[j].report(s) }
+		}}
+	}
+	switchA := c33Nested{"switchTo(A)", func(w *c33World) func() {
+		return func() { w.doSwitch(c33BuilderA, false, nil) }
+	}}
+	closing := c33Nested{"close", func(w *c33World) func() {
+		if w.m.closed {
+			return nil
+		}
+		return func() { w.m.close(); w.gsb.Close() }
+	}}
+	for _, n := range []c33Nested{report("pend", connectivity.Ready), report("pend", connectivity.TransientFailure), report("cur", connectivity.TransientFailure), switchA, closing} {
+		n := n
+		ops = append(ops, c33NewSCOp("cur", n.label, &n))
+	}
+	for _, n := range []c33Nested{report("cur", connectivity.TransientFailure), report("pend", connectivity.Ready), switchA, closing} {
+		n := n
+		ops = append(ops, c33NewSCOp("pend", n.label, &n))
+	}
 	return ops
 }
 
@@ -777,7 +845,7 @@ func TestVerif_C33_GracefulSwitch(t *testing.T) {
 	const P = "C33"
 	r := vk.Start(t, "c33_gracefulswitch", "model_checking", P)
 	defer r.Finish()
-	r.Rule(P, "breadth-first over ALL event histories up to the depth bound, each applied to a fresh real gracefulswitch.Balancer on a fake recording channel inside a synctest bubble (run to quiescence after every event, so the asynchronous close of the old policy has happened). Alphabet: SwitchTo(A) / SwitchTo(B) (always a new policy instance, also 'A again'), resolver update carrying a gracefulswitch config for A / B (switches only when the newest policy has another name), plain resolver update, ExitIdle, Close; and for each of the roles current / pending / most-recently-closed policy: UpdateState(CONNECTING|READY|TRANSIENT_FAILURE|IDLE) with a fresh tagged picker, NewSubConn, a READY update delivered to one of its subchannels' listener, the policy shutting one of its subchannels down, the SHUTDOWN update for it. Policy A is passive; policy B additionally calls back inline like real policies (NewSubConn + CONNECTING from Build, READY from inside the subchannel listener, CONNECTING from ExitIdle when IDLE). After every event the real balancer is compared with the reference current/pending machine: exact list of updates that reached the channel, which policies are closed, which subchannels are shut down, who is current/pending. A state = reference machine + private fields (balancerCurrent/balancerPending identity, lastState, subconn maps, closed) by role; distinct states are the non-trivial cases")
+	r.Rule(P, "breadth-first over ALL event histories up to the depth bound, each applied to a fresh real gracefulswitch.Balancer on a fake recording channel inside a synctest bubble (run to quiescence after every event, so the asynchronous close of the old policy has happened). Alphabet: SwitchTo(A) / SwitchTo(B) (always a new policy instance, also 'A again'), resolver update carrying a gracefulswitch config for A / B (switches only when the newest policy has another name), plain resolver update, ExitIdle, Close; and for each of the roles current / pending / most-recently-closed policy: UpdateState(CONNECTING|READY|TRANSIENT_FAILURE|IDLE) with a fresh tagged picker, NewSubConn, a READY update delivered to one of its subchannels' listener, the policy shutting one of its subchannels down, the SHUTDOWN update for it; plus re-entrant variants of NewSubConn for the current / pending policy in which, while the call is in flight inside the channel (subchannel created, call not yet returned), one more event happens: the other policy reports READY / TRANSIENT_FAILURE, the current policy leaves READY, SwitchTo(A), Close - so the caller can be closed or superseded DURING its call. Policy A is passive; policy B additionally calls back inline like real policies (NewSubConn + CONNECTING from Build, READY from inside the subchannel listener, CONNECTING from ExitIdle when IDLE). After every event the real balancer is compared with the reference current/pending machine: exact list of updates that reached the channel, which policies are closed, which subchannels are shut down, who is current/pending. A state = reference machine + private fields (balancerCurrent/balancerPending identity, lastState, subconn maps, closed) by role; distinct states are the non-trivial cases")
 	r.Assume(P, "events are delivered one at a time (calls into the balancer are serialized by the channel); concurrency between a policy's UpdateState and channel calls is not explored here")
 	r.Assume(P, "a policy that has not reported yet counts as CONNECTING, and its state as seen by the channel is CONNECTING with a picker belonging to no policy; the switch decision of the statement is evaluated whenever the old or the new policy reports a state")
 
